@@ -94,6 +94,17 @@ fn mac_by_limb(a: &BoxedUint, b: &BoxedUint, c: Limb, carry: Limb) -> (BoxedUint
     (a, carry)
 }
 
+/// Verification hook: forwards to the private [`mac_by_limb`].
+#[cfg(crypto_bigint_verif)]
+pub(crate) fn verif_boxed_mac_by_limb(
+    a: &BoxedUint,
+    b: &BoxedUint,
+    c: Limb,
+    carry: Limb,
+) -> (BoxedUint, Limb) {
+    mac_by_limb(a, b, c, carry)
+}
+
 #[cfg(all(test, feature = "rand"))]
 mod tests {
     use crate::{Limb, NonZero, Random, RandomMod, Uint};
